@@ -25,7 +25,9 @@ CLAIM = dict(
     technique="Coq proof (simulation between arena-building resolver model and tree denotation) + extracted-model "
               "correspondence + differential comparison against the reference toolchain through two subtype checkers")
 
-# Findings on the unchanged tree, awaiting the main session's decision (see the final report of the C05 builder).
+# Findings on the unchanged tree (recorded in /verif/known-findings.json by the main session; this local list is only the
+# fallback when an entry is missing there).  C05-include-with-first-side-only was FIXED in /repo (0d98072): it suppresses
+# nothing; its witness is the regression case `c-include-with-both-sides` in corpus/C05/cases.txt and must pass.
 # A failing case is attributed to an entry only if BOTH the failure shape (regex on the verdict) and the input shape
 # (feature computed by the harness from the parsed document and the resolved types) match.
 PROPOSED_KNOWN = [
@@ -63,11 +65,6 @@ PROPOSED_KNOWN = [
          text="`include w with { r as q }` where r is a resource declared in world w with a constructor/method/static: the "
               "type import is renamed to q but its member functions keep the names `[constructor]r`, `[method]r.m`: encode "
               "fails validation (`function does not match expected resource name`); the reference toolchain accepts the text"),
-    dict(property="C05", id="C05-include-with-first-side-only", status="known", signature="include-with-first-side-only",
-         witness="corpus/C05/known.txt#k-include-with",
-         text="`include w with { f as g }` where w both imports and exports `f`: replace_name removes the renaming after "
-              "its first use, so only the import is renamed and the export keeps the name `f`; WIT renames both "
-              "(fix proposal hooks/fix-c05-include-with-renames-both-sides.patch)"),
 ]
 
 RULES = [
@@ -101,8 +98,6 @@ RULES = [
         r"wac encode fails: PANIC in encode: encoding\.rs:\d+ no entry found for key"]),
     ("include-with-resource-members", "include-with-renames-resource", [
         r"wac encode fails: ValidationFailure.*function does not match expected resource name"]),
-    ("include-with-first-side-only", "include-with-both-sides", [
-        r"REF-DIFF world .*export names differ", r"REF-DIFF world .*explicit export .* missing", r"WP-DIFF world", r"SPEC-DIFF"]),
 ]
 
 
